@@ -555,6 +555,7 @@ func init() {
 		switch v := c.Args[0].(type) {
 		case *EncVal:
 			if v.Enc == "be64" {
+				st.assume(And(Ge(v.V, IntLit(0)), Lt(v.V, BigLit(two64))))
 				return Ite(v.Nil, IntLit(0), v.V)
 			}
 		case *Term:
@@ -701,6 +702,8 @@ func init() {
 			case *EncVal:
 				if cur != nil {
 					if v := rewrapGogo(src.V, cur.Sort); v != nil && src.Enc == "proto" {
+						// values in the store were written by typed code (A-CODEC): machine-integer ranges hold
+						st.assume(TypeInv(v, pv.Obj.typ, 0))
 						x.store(st, pv, Ite(src.Nil, ZeroOf(cur.Sort), v))
 						break
 					}
@@ -909,4 +912,76 @@ func init() {
 	theory["(time.Duration).Seconds"] = func(x *Exec, f *Frame, st *State, c *CallInfo) Val {
 		return App("/", SReal, App("to_real", SReal, c.T(0)), App("to_real", SReal, IntLit(nanos)))
 	}
+}
+
+func be32(v *Term) *Term { return UF("be32", SBytes, v) }
+
+func init() {
+	theory["(encoding/binary.bigEndian).PutUint32"] = func(x *Exec, f *Frame, st *State, c *CallInfo) Val {
+		v := c.T(2)
+		b := be32(v)
+		st.assume(Eq(UF("be32_inv", SInt, b), v))
+		switch d := c.Args[1].(type) {
+		case *BufVal:
+			d.Parts = append(d.Parts, bufPart{Val: b})
+		case *BufView:
+			d.Buf.Parts = append(d.Buf.Parts, bufPart{Off: d.Lo, Val: b})
+		}
+		return nil
+	}
+	hash := func(name string) TheoryFn {
+		return func(x *Exec, f *Frame, st *State, c *CallInfo) Val {
+			b := x.asBytes(st, c.Args[0])
+			if b == nil {
+				return x.freshTerm("hash", SBytes)
+			}
+			h := UF(name, SBytes, b)
+			// A-HASH: collision freedom = the hash has a left inverse
+			st.assume(Eq(UF(name+"_pre", SBytes, h), b))
+			st.assume(And(Neq(h, BytesNil), Not(UF("bytes_empty", SBool, h))))
+			return h
+		}
+	}
+	theory["github.com/cometbft/cometbft/crypto/tmhash.Sum"] = hash("sha256")
+	theory["github.com/cometbft/cometbft/crypto/tmhash.SumTruncated"] = hash("sha256_trunc20")
+	theory["encoding/hex.EncodeToString"] = func(x *Exec, f *Frame, st *State, c *CallInfo) Val {
+		b := x.asBytes(st, c.Args[0])
+		if b == nil {
+			return x.freshTerm("hex", SStr)
+		}
+		h := UF("hex_of_bytes", SStr, b)
+		st.assume(Eq(UF("bytes_of_hex", SBytes, h), b))
+		return h
+	}
+	theory["encoding/hex.DecodeString"] = func(x *Exec, f *Frame, st *State, c *CallInfo) Val {
+		s := c.T(0)
+		e := x.freshTerm("hexerr", SErr)
+		st.assume(Eq(Eq(e, ErrNil), UF("hex_ok", SBool, s)))
+		b := UF("bytes_of_hex", SBytes, s)
+		st.assume(Implies(UF("hex_ok", SBool, s), Eq(UF("hex_of_bytes", SStr, b), s)))
+		return &TupleVal{[]Val{b, e}}
+	}
+}
+
+func init() {
+	theory["(github.com/cometbft/cometbft/libs/bytes.HexBytes).String"] = func(x *Exec, f *Frame, st *State, c *CallInfo) Val {
+		b := x.asBytes(st, c.Args[0])
+		if b == nil {
+			return x.freshTerm("hexstr", SStr)
+		}
+		return UF("hex_upper", SStr, b)
+	}
+}
+
+func init() {
+	h := func(x *Exec, f *Frame, st *State, c *CallInfo) Val {
+		b := x.asBytes(st, c.Args[0])
+		if b == nil {
+			return x.freshTerm("hash", SBytes)
+		}
+		r := UF("sha256", SBytes, b)
+		st.assume(Eq(UF("sha256_pre", SBytes, r), b))
+		return r
+	}
+	theory["crypto/sha256.Sum256"] = h
 }
